@@ -69,9 +69,6 @@ Definition fproj_res (r : res) : sres :=
 
 (* ---- known deviations of MemFile / MemFS from os.File ------------------------- *)
 Inductive finding :=
-| KfOpenModeFromOptions  (* vfs.go ToOpenMode derives the access rights from the option flags, not from flag&3:
-                            O_RDONLY|O_CREATE / |O_TRUNC / |O_APPEND give a handle that can write and truncate
-                            and cannot read; O_RDONLY|O_EXCL one that can do neither *)
 | KfAppendOpenOffset     (* OpenFile(O_APPEND) starts the handle at the end of the file; Linux starts at 0 *)
 | KfZeroLenRead          (* Read(empty buffer) on an open file: io.EOF or EBADF; os.File: (0, nil) *)
 | KfZeroLenReadAt        (* ReadAt(empty buffer): EBADF / io.EOF beyond the end; os.File: (0, nil) *)
@@ -84,14 +81,10 @@ Inductive finding :=
 
 Definition finding_id (k : finding) : N :=
   match k with
-  | KfOpenModeFromOptions => 1 | KfAppendOpenOffset => 2 | KfZeroLenRead => 3 | KfZeroLenReadAt => 4
+  | KfAppendOpenOffset => 2 | KfZeroLenRead => 3 | KfZeroLenReadAt => 4
   | KfZeroLenWrite => 5 | KfZeroLenWriteAt => 6 | KfWriteAtAppend => 7 | KfClosedPriority => 8
   | KfUnlinkDropsData => 9
   end%N.
-
-(* the rights a handle with OpenMode om really has, versus those of the access mode *)
-Definition caps_agree (om : N) (a : access) : bool :=
-  Bool.eqb (has om OpenRead) (can_read a) && Bool.eqb (has om OpenWrite) (can_write a).
 
 Definition open_on (st : fstate) (i : nat) : bool :=
   existsb (fun o => negb (o_closed o) && Nat.eqb (o_ino o) i) (st_fds st).
@@ -114,12 +107,11 @@ Definition kf02 (st : fstate) (op : fop) : option finding :=
   | Open name flag perm =>
       match access_of flag, fst (fspec_step st op), snd (fspec_step st op) with
       | Some a, st', S_Fd k =>
-          if negb (caps_agree (to_open_mode flag) a) then Some KfOpenModeFromOptions
-          else match fd_get st' k with
-               | Some (o, ino) =>
-                   if o_app o && negb (Nat.eqb (length (i_bytes ino)) 0) then Some KfAppendOpenOffset else None
-               | None => None
-               end
+          match fd_get st' k with
+          | Some (o, ino) =>
+              if o_app o && negb (Nat.eqb (length (i_bytes ino)) 0) then Some KfAppendOpenOffset else None
+          | None => None
+          end
       | _, _, _ => None
       end
   | Read fd n =>
